@@ -18,8 +18,8 @@
 EXTENDS Naturals, Sequences, FiniteSets, TLC, Json, SequencesExt, FiniteSetsExt
 
 CONSTANTS MaxObs, MaxWidth
-VARIABLES kind, n, p, scaleSign, outSign, phase
-vars == <<kind, n, p, scaleSign, outSign, phase>>
+VARIABLES kind, n, p, scaleSign, outSign, magnitude, phase
+vars == <<kind, n, p, scaleSign, outSign, magnitude, phase>>
 Checked == phase = "checked"
 
 Kinds == {"G", "M", "C", "L"}
@@ -45,11 +45,16 @@ GradOrder == Checked => /\ \A k \in 1..p : GradLayout[k] = <<"mech", k>>
                         /\ \A j \in 1..Q(kind) : GradLayout[p + j] = <<"err", j>>
 
 Init == /\ kind \in Kinds /\ n \in 1..MaxObs /\ p \in 0..MaxWidth
-        /\ scaleSign \in [1..Q(kind) -> Signs] /\ outSign \in OutSigns /\ phase = "raw"
-Next == phase = "raw" /\ phase' = "checked" /\ UNCHANGED <<kind, n, p, scaleSign, outSign>>
+        /\ scaleSign \in [1..Q(kind) -> Signs] /\ outSign \in OutSigns
+        \* magnitude class of outputs and scales, and whether the series is long (hundreds of observations):
+        \* "any length >= 1", "all positive scale parameters" in the property
+        /\ magnitude \in {"unit", "large", "small", "long_large", "long_small"}
+        /\ (magnitude # "unit" => (outSign = "pos" /\ \A j \in 1..Q(kind) : scaleSign[j] = "pos" /\ n = 1 /\ p = 0))
+        /\ phase = "raw"
+Next == phase = "raw" /\ phase' = "checked" /\ UNCHANGED <<kind, n, p, scaleSign, outSign, magnitude>>
 Spec == Init /\ [][Next]_vars
 
 Config == [kind |-> kind, n |-> n, p |-> p, scalesign |-> scaleSign, outsign |-> outSign, cls |-> ClassOf,
-           defined |-> Defined, q |-> Q(kind), layout |-> GradLayout]
+           defined |-> Defined, q |-> Q(kind), layout |-> GradLayout, magnitude |-> magnitude]
 Emit == Checked => PrintT("@@" \o ToJson(Config))
 =============================================================================
